@@ -22,7 +22,7 @@ import (
 // mode the property lists; after each batch the harness waits for the server
 // side to settle (bounded) and records the counts again.
 
-var churnModes = []string{"fin-boundary", "fin-mid", "rst", "quit", "malformed", "writefail", "tls-nocert", "tls-wrongname", "tls-ok-fin", "tls-ok-rst", "tls-stall-close", "idle-fin"}
+var churnModes = []string{"fin-boundary", "fin-mid", "rst", "quit", "quit-hold", "malformed", "writefail", "tls-nocert", "tls-wrongname", "tls-ok-fin", "tls-ok-rst", "tls-stall-close", "idle-fin"}
 
 func countFDs() int {
 	ents, err := os.ReadDir("/proc/self/fd")
@@ -35,6 +35,23 @@ func countFDs() int {
 type churnRun struct {
 	plain, tlsp int
 	p           *pki
+	hmu         sync.Mutex
+	held        []net.Conn // clients that keep their socket although the server must have closed its side (quit-hold)
+}
+
+func (cr *churnRun) nheld() int {
+	cr.hmu.Lock()
+	defer cr.hmu.Unlock()
+	return len(cr.held)
+}
+
+func (cr *churnRun) releaseHeld() {
+	cr.hmu.Lock()
+	defer cr.hmu.Unlock()
+	for _, c := range cr.held {
+		c.Close()
+	}
+	cr.held = nil
 }
 
 // one connection with the given ending; reports whether the server closed its side where it has to
@@ -87,7 +104,12 @@ func (cr *churnRun) one(mode string, rng *rand.Rand) (closedByServer bool, mustC
 	if err != nil {
 		return false, true
 	}
-	defer c.Close()
+	if mode == "quit-hold" {
+		// the client does not close after QUIT: the server has to release the connection on its own
+		defer func() { cr.hmu.Lock(); cr.held = append(cr.held, c); cr.hmu.Unlock() }()
+	} else {
+		defer c.Close()
+	}
 	rd := bufio.NewReader(c)
 	pre := rng.Intn(3) // requests before the ending (position in a pipeline)
 	for i := 0; i < pre; i++ {
@@ -107,7 +129,7 @@ func (cr *churnRun) one(mode string, rng *rand.Rand) (closedByServer bool, mustC
 		c.Write(request("GET", "k"))
 		c.(*net.TCPConn).SetLinger(0)
 		return true, false
-	case "quit":
+	case "quit", "quit-hold":
 		c.Write(request("QUIT"))
 		return readEOF(c), true
 	case "malformed":
@@ -162,6 +184,7 @@ func cmdChurn(args []string) {
 			time.Sleep(5 * time.Millisecond)
 		}
 	}
+	cr.releaseHeld()
 	settle(func() bool { n, _ := frameworkGoroutines(); return n == 2 && len(es.Conns()) == 0 })
 	time.Sleep(20 * time.Millisecond)
 	bg, _ := frameworkGoroutines()
@@ -196,17 +219,18 @@ func cmdChurn(args []string) {
 		wg.Wait()
 		settle(func() bool {
 			g, _ := frameworkGoroutines()
-			return g == bg && countFDs() == bfd && len(es.Conns()) == bconns
+			return g == bg && countFDs()-cr.nheld() == bfd && len(es.Conns()) == bconns // (held client sockets are the harness's own)
 		})
 		g, which := frameworkGoroutines()
 		if which == nil {
 			which = []string{}
 		}
-		if g != bg || countFDs() != bfd || len(es.Conns()) != bconns || notClosed > 0 {
+		if g != bg || countFDs()-cr.nheld() != bfd || len(es.Conns()) != bconns || notClosed > 0 {
 			unsettled++
 		}
-		rec.Emit(Ev{"ev": "obs", "kind": "churn", "cycle": cyc, "n": n, "modes": modes, "goroutines": g, "fds": countFDs(), "conns": len(es.Conns()),
+		rec.Emit(Ev{"ev": "obs", "kind": "churn", "cycle": cyc, "n": n, "modes": modes, "goroutines": g, "fds": countFDs() - cr.nheld(), "conns": len(es.Conns()),
 			"not_closed": notClosed, "which": which[:min(len(which), 6)]})
+		cr.releaseHeld()
 		if unsettled >= 3 {
 			break // the run is already rejected; do not wait out the settle timeout thousands of times
 		}
@@ -241,21 +265,51 @@ func cmdChurn(args []string) {
 		raw.(*net.TCPConn).SetLinger(0)
 		raw.Close()
 	}
-	rec.Emit(Ev{"ev": "call", "call": "Stop", "phase": "stopping"})
-	err = es.Stop()
-	errs = ""
-	if err != nil {
-		errs = err.Error()
+	// ... and with a client that asked for far more than the socket buffers hold and does not read: its connection
+	// goroutine is blocked inside a reply write when Stop arrives
+	if sr, err := net.DialTimeout("tcp", fmt.Sprintf("127.0.0.1:%d", cr.plain), time.Second); err == nil {
+		sr.Write(request("SET", "stalled-big", string(make([]byte, 1<<20))))
+		for i := 0; i < 64; i++ {
+			sr.Write(request("GET", "stalled-big"))
+		}
+		open = append(open, sr)
+		time.Sleep(50 * time.Millisecond)
 	}
+	stopWatched := func() string {
+		done := make(chan error, 1)
+		go func() { done <- es.Stop() }()
+		select {
+		case err := <-done:
+			if err != nil {
+				return err.Error()
+			}
+			return ""
+		case <-time.After(20 * time.Second):
+			return "Stop did not return within 20 s"
+		}
+	}
+	rec.Emit(Ev{"ev": "call", "call": "Stop", "phase": "stopping"})
+	errs = stopWatched()
 	rec.Emit(Ev{"ev": "ret", "call": "Stop", "err": errs, "phase": "stopped"})
+	if errs == "Stop did not return within 20 s" {
+		rec.End()
+		must(rec.Close())
+		fmt.Println("churn: Stop hung")
+		return
+	}
 	settle(func() bool { g, _ := frameworkGoroutines(); return g == 0 })
 	for i, c := range open {
-		c.SetReadDeadline(time.Now().Add(500 * time.Millisecond))
-		_, err := c.Read(make([]byte, 1))
+		// whatever is still in flight is drained: the question is whether the stream ENDS (end of file or reset)
+		c.SetReadDeadline(time.Now().Add(1500 * time.Millisecond))
 		st := "open"
-		if err != nil {
-			if ne, ok := err.(net.Error); !ok || !ne.Timeout() {
-				st = "eof"
+		buf := make([]byte, 1<<16)
+		for {
+			_, err := c.Read(buf)
+			if err != nil {
+				if ne, ok := err.(net.Error); !ok || !ne.Timeout() {
+					st = "eof"
+				}
+				break
 			}
 		}
 		rec.Emit(Ev{"ev": "obs", "kind": "client", "x": i, "state": st})
@@ -268,6 +322,34 @@ func cmdChurn(args []string) {
 	rec.Emit(Ev{"ev": "obs", "kind": "final", "conns": len(es.Conns()), "goroutines": g, "which": which})
 	for _, k := range []int{cr.plain, cr.tlsp} {
 		rec.Emit(Ev{"ev": "obs", "kind": "bind", "port": fmt.Sprint(k), "ok": bindable(k)})
+	}
+	// a second life of the same server: the plain port is disabled through CONFIG SET while it is running; Stop still has
+	// to close the listener that Start opened
+	rec.Emit(Ev{"ev": "call", "call": "Start", "phase": "starting"})
+	errs = ""
+	if err := es.Start(); err != nil {
+		errs = err.Error()
+	}
+	rec.Emit(Ev{"ev": "ret", "call": "Start", "err": errs, "phase": "running"})
+	if errs == "" {
+		if c, err := net.DialTimeout("tcp", fmt.Sprintf("127.0.0.1:%d", cr.plain), time.Second); err == nil {
+			c.Write(request("CONFIG", "SET", "port", "0"))
+			c.SetReadDeadline(time.Now().Add(time.Second))
+			bufio.NewReader(c).ReadString('\n')
+			c.Close()
+		}
+		rec.Emit(Ev{"ev": "call", "call": "Stop", "phase": "stopping"})
+		errs = stopWatched()
+		rec.Emit(Ev{"ev": "ret", "call": "Stop", "err": errs, "phase": "stopped"})
+		settle(func() bool { g, _ := frameworkGoroutines(); return g == 0 })
+		g, which = frameworkGoroutines()
+		if which == nil {
+			which = []string{}
+		}
+		rec.Emit(Ev{"ev": "obs", "kind": "final", "conns": len(es.Conns()), "goroutines": g, "which": which})
+		for _, k := range []int{cr.plain, cr.tlsp} {
+			rec.Emit(Ev{"ev": "obs", "kind": "bind", "port": fmt.Sprint(k), "ok": bindable(k)})
+		}
 	}
 	rec.End()
 	must(rec.Close())
